@@ -28,6 +28,11 @@ CHECKS = {
    text="(a) For each value type a family of near-identical values (one field changed; several construction routes per value) is enumerated over ALL ordered pairs and ALL ordered triples: equality must match the construction (same value <=> equal), be reflexive/symmetric/transitive, agree with !=, equal hashable objects must hash equally, unequal objects must not share a dask token, pickle/copy/deepcopy clones must be equal with equal token and hash. (b) Breadth-first search over histories of {construct CRS by spec, drop handle, gc.collect, transformer request} replayed from cleared real caches, from initial and non-initial start states, deduplicated on a canonical cache state; in every state: str/hash/token/epsg of each new CRS equal those observed with empty caches, each transformer maps a probe exactly like a fresh pyproj transformer, and every identity-keyed transformer entry refers to objects that are still alive.",
    note="Bounds: families of 5-40 members per type; histories: init + 3 (quick) / 4 (thorough) events, <=3 live handles, 11 specs over 3 EPSG codes. Two genuine defects are recorded as known findings (F19-1 history-dependent CRS string, F19-2 hash of equal CRSs with different spelling).",
    design="4/C19", thorough=True),
+ "C13": dict(level="model_checking", engine="E1+E3b",
+   technique="bounded-exhaustive enumeration of chunkings/placements with the real dask graph executed by the harness, vs the in-memory path and an exact brute-force nearest reference; exhaustive task-order exploration within a deviation bound",
+   text="Complete products over source shape x dtype x nodata setting x source chunking x destination chunking x 17 destination placements (aligned, whole/sub-pixel shifts, scales 2, 1/2, 1.5, mirrored, partly outside on each side, disjoint, larger) x time axis: the graph built by xr_reproject for dask input is executed task by task by the harness and must equal, pixel for pixel (NaN-aware), both the in-memory result and a brute-force nearest-neighbour reference computed in exact rational arithmetic, which also fixes the fill value of every unreachable pixel. Cross-CRS (3857<->4326): clearly reachable / clearly unreachable pixel classes from a fresh pyproj transformer must be non-fill / fill in both paths; disjoint => all fill, no exception. For three graphs every task order within 1 (quick) / 2 (thorough) deviations of dask's static order must give the identical array.",
+   note="Dyadic alphabet; destination pixel centres never map onto a source pixel edge (asserted by the reference), so tie-breaking cannot differ. GDAL is trusted for the in-memory path. Tasks run one at a time (task granularity); threads inside GDAL are not schedulable.",
+   design="4/C13", thorough=True),
 }
 NOT_YET = "check not built yet in this session (design in DESIGN.md section 4); no claim made"
 
